@@ -934,3 +934,289 @@ var ruleLocFile = &Rule{
 		return obs
 	},
 }
+
+// ---------------------------------------------------------------------------------------------
+// CURSOR: the column counter advances by the text that is removed
+
+var ruleCursor = &Rule{
+	Name:    "LOC/cursor-coherence",
+	NeedSSA: true,
+	Text:    "in the Lua lexer every function that advances the column counter (a store to Lexer.currentPos) also removes text from the input (chunk = chunk[k:]) and the amount added is computed from exactly the removed text: either k itself (byte count of an ASCII token) or the rune count of (the UTF-8 conversion of) chunk[:k] read before the removal — never from a decoded / rebuilt string (escape sequences shorten it) or from a different slice bound: otherwise every later token on the line is reported at a shifted column",
+	Run: func(c *Ctx) []Ob {
+		var obs []Ob
+		n := 0
+		for _, f := range c.ModFns() {
+			if f.Pkg == nil || f.Pkg.Pkg.Path() != lexerPkgPath {
+				continue
+			}
+			var posStores []*ssa.Store
+			var cut ssa.Value // k of chunk = chunk[k:]
+			for _, b := range f.Blocks {
+				for _, ins := range b.Instrs {
+					st, ok := ins.(*ssa.Store)
+					if !ok {
+						continue
+					}
+					fa, ok := st.Addr.(*ssa.FieldAddr)
+					if !ok {
+						continue
+					}
+					switch fieldOf(fa).Name() {
+					case "currentPos":
+						posStores = append(posStores, st)
+					case "chunk":
+						if sl, ok := st.Val.(*ssa.Slice); ok && sl.High == nil {
+							if ld, ok := sl.X.(*ssa.UnOp); ok {
+								if fa2, ok := ld.X.(*ssa.FieldAddr); ok && fieldOf(fa2).Name() == "chunk" {
+									cut = sl.Low
+								}
+							}
+						}
+					}
+				}
+			}
+			for i, st := range posStores {
+				n++
+				key := fmt.Sprintf("LOC/cursor:%s#%d", f.Name(), i+1)
+				why := ""
+				bo, ok := st.Val.(*ssa.BinOp)
+				if !ok || bo.Op != token.ADD {
+					// a plain reset (constructor) is not an advance
+					if _, isC := st.Val.(*ssa.Const); isC {
+						n--
+						continue
+					}
+					why = "the new column is not `old + amount`"
+				}
+				if why == "" {
+					delta := bo.Y
+					if ld, ok := bo.Y.(*ssa.UnOp); ok {
+						if fa, ok := ld.X.(*ssa.FieldAddr); ok && fieldOf(fa).Name() == "currentPos" {
+							delta = bo.X
+						}
+					}
+					switch {
+					case cut == nil:
+						why = "the function advances the column counter without removing text from the input"
+					case delta == cut:
+						// byte count of the removed text
+					default:
+						call, ok := delta.(*ssa.Call)
+						if !ok || call.Call.StaticCallee() == nil || call.Call.StaticCallee().Name() != "RuneCountInString" {
+							why = "the amount added (" + describeValue(delta) + ") is neither the number of bytes removed nor a rune count of the removed text"
+							break
+						}
+						arg := call.Call.Args[0]
+						if conv, ok := arg.(*ssa.Call); ok && conv.Call.StaticCallee() != nil && strings.HasPrefix(conv.Call.StaticCallee().Name(), "Convert") {
+							arg = conv.Call.Args[0]
+						}
+						sl, ok := canon(arg).(*ssa.Slice)
+						okSlice := false
+						if ok {
+							if ld, ok := sl.X.(*ssa.UnOp); ok {
+								if fa, ok := ld.X.(*ssa.FieldAddr); ok && fieldOf(fa).Name() == "chunk" {
+									lowOK := sl.Low == nil
+									if k, isC := sl.Low.(*ssa.Const); isC && k.Value != nil && k.Value.String() == "0" {
+										lowOK = true
+									}
+									if lowOK && (sl.High == cut || sameLoadNoWrite(sl.High, cut)) {
+										okSlice = true
+									}
+								}
+							}
+						}
+						if !okSlice {
+							why = "the characters counted are those of " + describeValue(arg) + ", not of the text removed from the input (chunk[:k] for the same k): a decoded or differently bounded string gives another length"
+						}
+					}
+				}
+				if why == "" {
+					obs = append(obs, Ob{Key: key, Site: c.Pos(st.Pos()), Verdict: OK})
+				} else {
+					obs = append(obs, Ob{Key: key, Site: c.Pos(st.Pos()), Verdict: VIOLATION, Note: f.Name() + ": " + why})
+				}
+			}
+		}
+		obs = append(obs, floor("LOC/cursor-coherence", "advances of the column counter", n, 3))
+		return obs
+	},
+}
+
+// sameLoadNoWrite: a and b are two loads of the same local variable in one block with no store to it and no
+// call between them (go/ssa has no CSE: `x[:i]` and `x[i:]` read an address-taken i twice)
+func sameLoadNoWrite(a, b ssa.Value) bool {
+	la, ok1 := a.(*ssa.UnOp)
+	lb, ok2 := b.(*ssa.UnOp)
+	if !ok1 || !ok2 || la.Op != token.MUL || lb.Op != token.MUL || la.X != lb.X || la.Block() != lb.Block() {
+		return false
+	}
+	if _, isAlloc := la.X.(*ssa.Alloc); !isAlloc {
+		return false
+	}
+	in := false
+	for _, ins := range la.Block().Instrs {
+		if ins == ssa.Instruction(la) || ins == ssa.Instruction(lb) {
+			if in {
+				return true
+			}
+			in = true
+			continue
+		}
+		if !in {
+			continue
+		}
+		switch x := ins.(type) {
+		case *ssa.Store:
+			if x.Addr == la.X {
+				return false
+			}
+		case *ssa.Call:
+			for _, arg := range x.Call.Args {
+				if arg == la.X {
+					return false
+				}
+			}
+		}
+	}
+	return false
+}
+
+// ---------------------------------------------------------------------------------------------
+// LINESTART: the line start equals the cursor only right after a line terminator
+
+var ruleLineStart = &Rule{
+	Name:    "LOC/line-start",
+	NeedSSA: true,
+	Text:    "in the Lua lexer the start-of-line position (Lexer.lineStartPos; a token's column is cursor − lineStartPos) is set to the cursor itself only on a branch that has just recognised a line terminator — the store is dominated by the true edge of a newline predicate (a lexer function returning bool whose body tests '\\n' / '\\r'), of a comparison with '\\n' / '\\r', or of a boolean result that the callee returns true only under such a test; any other assignment must be arithmetic on the cursor (cursor minus the length of the text after the last line break). Setting it to the cursor after consuming a multi-character token without a line break (a long string, a long comment) shifts the column of every later token on that line",
+	Run: func(c *Ctx) []Ob {
+		var obs []Ob
+		// newline predicates: bool functions of the lexer package that compare with 10 / 13 or test a string containing them
+		nlPred := map[*ssa.Function]bool{}
+		isNLConst := func(v ssa.Value) bool {
+			k, ok := v.(*ssa.Const)
+			if !ok || k.Value == nil {
+				return false
+			}
+			switch k.Value.Kind() {
+			case constant.Int:
+				n, _ := constant.Int64Val(k.Value)
+				return n == 10 || n == 13
+			case constant.String:
+				s := constant.StringVal(k.Value)
+				return s == "\n" || s == "\r" || s == "\r\n" || s == "\n\r"
+			}
+			return false
+		}
+		for _, f := range c.ModFns() {
+			if f.Pkg == nil || f.Pkg.Pkg.Path() != lexerPkgPath || f.Signature.Results().Len() != 1 {
+				continue
+			}
+			if bt, ok := f.Signature.Results().At(0).Type().Underlying().(*types.Basic); !ok || bt.Kind() != types.Bool {
+				continue
+			}
+			small := 0
+			for _, b := range f.Blocks {
+				small += len(b.Instrs)
+			}
+			if small > 60 {
+				continue
+			}
+			for _, b := range f.Blocks {
+				for _, ins := range b.Instrs {
+					for _, op := range ins.Operands(nil) {
+						if isNLConst(*op) {
+							nlPred[f] = true
+						}
+					}
+				}
+			}
+		}
+		var evidenceCond func(cond ssa.Value, d int) bool
+		evidenceCond = func(cond ssa.Value, d int) bool {
+			if d > 3 {
+				return false
+			}
+			switch x := cond.(type) {
+			case *ssa.Call:
+				if sc := x.Call.StaticCallee(); sc != nil && nlPred[sc] {
+					return true
+				}
+			case *ssa.BinOp:
+				if x.Op == token.EQL && (isNLConst(x.X) || isNLConst(x.Y)) {
+					return true
+				}
+			case *ssa.Extract:
+				// a boolean result: every return of the callee gives false, or true under newline evidence (checked: no true constant outside evidence)
+				if call, ok := x.Tuple.(*ssa.Call); ok {
+					if g := call.Call.StaticCallee(); g != nil && g.Blocks != nil {
+						okAll := true
+						for _, gb := range g.Blocks {
+							ret, ok := gb.Instrs[len(gb.Instrs)-1].(*ssa.Return)
+							if !ok || x.Index >= len(ret.Results) {
+								continue
+							}
+							k, isC := retOperand(ret, x.Index).(*ssa.Const)
+							if !isC || k.Value == nil || k.Value.Kind() != constant.Bool || constant.BoolVal(k.Value) {
+								okAll = false
+							}
+						}
+						return okAll // never true: the branch is dead
+					}
+				}
+			}
+			return false
+		}
+		n := 0
+		for _, f := range c.ModFns() {
+			if f.Pkg == nil || f.Pkg.Pkg.Path() != lexerPkgPath {
+				continue
+			}
+			cnt := 0
+			for _, b := range f.Blocks {
+				for _, ins := range b.Instrs {
+					st, ok := ins.(*ssa.Store)
+					if !ok {
+						continue
+					}
+					fa, ok := st.Addr.(*ssa.FieldAddr)
+					if !ok || fieldOf(fa).Name() != "lineStartPos" || namedName(fa.X.Type()) != "Lexer" {
+						continue
+					}
+					ld, ok := st.Val.(*ssa.UnOp)
+					if !ok {
+						continue // arithmetic on the cursor (or a constant): not the exact cursor
+					}
+					fa2, ok := ld.X.(*ssa.FieldAddr)
+					if !ok || fieldOf(fa2).Name() != "currentPos" {
+						continue
+					}
+					n++
+					cnt++
+					key := fmt.Sprintf("LOC/line-start:%s#%d", f.Name(), cnt)
+					ev := false
+					for d := b; d != nil && !ev; d = d.Idom() {
+						id := d.Idom()
+						if id == nil {
+							break
+						}
+						iff, ok := id.Instrs[len(id.Instrs)-1].(*ssa.If)
+						if !ok || id.Succs[0] != d {
+							continue
+						}
+						if evidenceCond(iff.Cond, 0) {
+							ev = true
+						}
+					}
+					if ev {
+						obs = append(obs, Ob{Key: key, Site: c.Pos(st.Pos()), Verdict: OK})
+					} else {
+						obs = append(obs, Ob{Key: key, Site: c.Pos(st.Pos()), Verdict: VIOLATION,
+							Note: f.Name() + " sets the start of the line to the cursor on a path that has not just recognised a line terminator: columns of later tokens on this line are counted from the wrong origin"})
+					}
+				}
+			}
+		}
+		obs = append(obs, floor("LOC/line-start", "assignments lineStartPos = currentPos", n, 2))
+		return obs
+	},
+}
